@@ -246,9 +246,33 @@ def replay_fee(name, base_e, mult_e, var_e, total_e):
     return None
 
 
+def h_fee_oracle(ctx):
+    """fee() replaced by its contract (decided in C01-2): Err | Ok(None) | Ok(Some((&action.fee_asset, total))) with an arbitrary total"""
+    ex, st = ctx.ex, ctx.st
+    act = ex.deref_val(st, ctx.args[0])
+    adt = ex.adts.lookup(act.ty)
+    total = z3.BitVec('total_fee', 128); e_, n_ = z3.Bool('fee_err'), z3.Bool('fee_none')
+    st.world['fee_total'] = total
+    has_asset = adt and 'fee_asset' in adt.get('fields', [])
+
+    def alts(ex, s2, fut):
+        a2 = s2.tr(act)
+        out = [(e_, M.err(Obj('CheckedActionFeeError', kind='error')))]
+        if has_asset:
+            ref = Ref(('field', a2, (None, adt['fields'].index('fee_asset'), 'Denom')))
+            ex.read(s2, ref.loc)
+            out.append((z3.And(z3.Not(e_), z3.Not(n_)), M.ok(M.some((ref, total)))))
+            out.append((z3.And(z3.Not(e_), n_), M.ok(M.none())))
+        else:
+            out.append((z3.Not(e_), M.ok(M.none())))
+        return out
+    return [(None, M.thunk_future(alts))]
+
+
 @obligation('C01', 'C01-3 pay_fee debits the signer only and routes the same amount to the block fees')
 def c01_pay_fee(run):
-    ex, W = fee_engine()
+    ex, W = A.engine(extra_hooks=[(re.compile(r'^fee(::<.*>)?$'), h_fee_oracle)])
+    run.assume('fee() is replaced by its contract (decided separately in C01-2): it returns Err, Ok(None), or Ok(Some((the action\'s fee asset, an arbitrary total)))')
     for a_ in COMMON_ASSUME:
         run.assume(a_)
     run.bound(state='arbitrary symbolic chain state', actions=['Transfer', 'BridgeLock', 'ValidatorUpdate'], signer='arbitrary [u8;20]', unroll='loop-free')
@@ -267,7 +291,7 @@ def c01_pay_fee(run):
             if kind == 'Ok':
                 n_ok += 1
                 if not fees:
-                    run.prove(f'{name}: free action => nothing written [path {i}]', p.pc, unchanged(w0, p.world)); continue
+                    run.prove(f'{name}: free action => nothing written [path {i}]', p.pc, unchanged(w0, p.world, except_=('fee_total',))); continue
                 (asset, amount, position), = fees if len(fees) == 1 else ((None, None, None),)
                 if asset is None:
                     run.prove(f'{name}: exactly one block-fee entry [path {i}]', p.pc, z3.BoolVal(False)); continue
@@ -275,8 +299,8 @@ def c01_pay_fee(run):
                 me = ex.read(p, p.roots['args'][0].loc)
                 fa = W.asset(p, B.fld(ex, p, me, 'fee_asset', 'Denom'))
                 run.prove(f'{name}: Ok => signer (and only the signer) debited exactly the fee that was added to the block fees, in the fee asset [path {i}]', p.pc,
-                          z3.And(asset == fa, p.world['balance'] == z3.Store(b0, k, z3.Select(b0, k) - amount), z3.UGE(z3.Select(b0, k), amount), position == pos,
-                                 unchanged(w0, p.world, except_=('balance', 'block_fees'))))
+                          z3.And(asset == fa, amount == p.world['fee_total'], p.world['balance'] == z3.Store(b0, k, z3.Select(b0, k) - amount), z3.UGE(z3.Select(b0, k), amount), position == pos,
+                                 unchanged(w0, p.world, except_=('balance', 'block_fees', 'fee_total'))))
             else:
                 # the error propagates and the transaction's delta is dropped (C03-2); still: no balance other than the signer's may have been touched
                 a = z3.BitVec('any_addr', 160); s = z3.BitVec('any_asset', 256); kk = bal_key(a, s)
